@@ -59,6 +59,11 @@ var pkgSrc = map[string]map[string]string{
 	"bad": {
 		"d.go": "package bad\n\nfunc Fine1() uint64 {\n\treturn 1\n}\n\nfunc Unsupported(x uint64) uint64 {\n\tswitch x {\n\tcase 1:\n\t\treturn 2\n\t}\n\treturn 3\n}\n\nfunc Fine2() bool {\n\treturn true\n}\n",
 	},
+	// one file, no package comment, and its only declaration is not translatable: with
+	// -ignore-errors the file holds the header and no definition
+	"allbad": {
+		"z.go": "package allbad\n\nfunc OnlyUnsupported(x uint64) uint64 {\n\tswitch x {\n\tcase 1:\n\t\treturn 2\n\t}\n\treturn 3\n}\n",
+	},
 	"broken": {
 		"e.go": "package broken\n\nfunc Wrong() uint64 {\n\treturn \"not a number\"\n}\n",
 	},
@@ -134,7 +139,7 @@ func main() {
 		ignore := r.Bool()
 		// which packages exist in this module
 		present := []string{"good1"}
-		for _, p := range []string{"sub/good2", "my-pkg", "bad", "conv", "cgopkg"} {
+		for _, p := range []string{"sub/good2", "my-pkg", "bad", "conv", "cgopkg", "allbad"} {
 			if r.Intn(3) != 0 {
 				present = append(present, p)
 			}
@@ -249,6 +254,9 @@ func main() {
 				content = ""
 			}
 			refContents[m] = content
+			if rel == "allbad" && (content == "" || strings.Contains(content, "Definition")) {
+				fmt.Fprintf(w, "G BAD with -ignore-errors the package allbad, none of whose declarations translates, must get a file with the header and no definition; got %q\n", content)
+			}
 			fmt.Fprintf(w, "Q %s %d %s\n", m, map[bool]int{false: 0, true: 1}[code == 0], hx(content))
 			os.RemoveAll(ref)
 		}
@@ -343,6 +351,28 @@ func main() {
 				} else {
 					fmt.Fprintln(w, "G BAD the goose build tag is not applied like the toolchain applies it")
 				}
+			}
+		}
+		// a file that cannot be written is an error: the place of one package's directory is taken by a regular file
+		if r.Intn(3) == 0 {
+			for _, m := range matched {
+				if refContents[m] == "" || strings.Contains(m, "bad") || strings.Contains(m, "conv") {
+					continue
+				}
+				out3 := filepath.Join(root, "out3")
+				p := filepath.Join(out3, strings.NewReplacer(".", "_", "-", "_").Replace(m)+".v")
+				os.MkdirAll(filepath.Dir(filepath.Dir(p)), 0o755)
+				os.WriteFile(filepath.Dir(p), []byte("not a directory\n"), 0o644)
+				args := append(append([]string{"-out", out3}, dirArgs...), extra...)
+				if ignore {
+					args = append(args, "-ignore-errors")
+				}
+				code3, _ := runGoose(*goose, cwd, append(args, patterns...)...)
+				if _, err := os.Stat(p); err != nil && code3 == 0 {
+					fmt.Fprintf(w, "G BAD goose exits 0 although it could not write %s (a regular file is where its directory has to be)\n", strings.TrimPrefix(p, out3+"/"))
+				}
+				os.RemoveAll(out3)
+				break
 			}
 		}
 		fmt.Fprintln(w, "E")
